@@ -138,6 +138,10 @@ def run_cases(mod, ctx, only=None):
         fn = mons[name]
         ctx._cur = (name, case)
         ctx.monitor_evals[name] = ctx.monitor_evals.get(name, 0) + 1
+        if ctx.monitor_evals[name] == 1 and len(ctx.samples) < 3:
+            # always show at least one actual case per monitor (the monitors add richer samples at random)
+            ctx.samples.append({"monitor": name, "case": json.loads(json.dumps(case, default=str)) if len(repr(case)) < 600
+                                else repr(case)[:600] + "..."})
         try:
             fn(ctx, case)
         except Exception as e:  # a monitor bug or an escaped exception of the SUT
